@@ -257,7 +257,10 @@ func runC14(t *testing.T, x c14Scn, verbose bool) vfCase {
 					}
 					return true
 				}
-				s.o.run(func() bool { return allEOF() || c.Verdict != "" }, deadline)
+				// (the bound runs from the last packet fault that was applied: a long run of lost
+				// RE-CONFIG retransmissions postpones the end legitimately)
+				_ = deadline
+				s.waitHealed(func() bool { return allEOF() || c.Verdict != "" }, bound)
 				if c.Verdict != "" {
 					return
 				}
@@ -304,7 +307,7 @@ func runC14(t *testing.T, x c14Scn, verbose bool) vfCase {
 					}
 					return true
 				}
-				s.o.run(func() bool { return bothReset() || c.Verdict != "" }, time.Now().Add(bound))
+				s.waitHealed(func() bool { return bothReset() || c.Verdict != "" }, bound)
 				if c.Verdict != "" {
 					return
 				}
@@ -324,12 +327,12 @@ func runC14(t *testing.T, x c14Scn, verbose bool) vfCase {
 			// other stream unaffected
 			if x.Other > 0 && c.Verdict == "" {
 				var acc []vfReadRec
-				s.o.run(func() bool {
+				s.waitHealed(func() bool {
 					if st := peerStreamObj(1, 99, 0); st != nil {
 						acc = append(acc, readAll(1, st).data...)
 					}
 					return len(acc) >= len(otherW)
-				}, time.Now().Add(bound))
+				}, bound)
 				if st := peerStreamObj(1, 99, 0); st != nil {
 					rr := readAll(1, st)
 					rr.data = append(acc, rr.data...)
